@@ -299,8 +299,9 @@ class TreeReduce(Expr):
         "combine_kwargs",
         "aggregate_kwargs",
         "split_every",
+        "output_divisions",
     ]
-    _defaults = {"split_every": 8}
+    _defaults = {"split_every": 8, "output_divisions": None}
 
     @functools.cached_property
     def _name(self):
@@ -357,7 +358,9 @@ class TreeReduce(Expr):
         return self.operand("_meta")
 
     def _divisions(self):
-        return (None, None)
+        # the divisions of the single output partition that the abstract
+        # expression knows about (e.g. the column labels of a reduced frame)
+        return self.operand("output_divisions") or (None, None)
 
     def __str__(self):
         chunked = str(self.frame)
@@ -494,6 +497,7 @@ class ApplyConcatApply(Expr):
                 combine_kwargs,
                 aggregate_kwargs,
                 split_every=split_every,
+                output_divisions=self.divisions,
             )
 
         # Lower into ShuffleReduce
